@@ -5409,6 +5409,12 @@ class NetCDFWrite(IOWrite):
                 compress=compress,
                 fletcher32=fletcher32,
                 shuffle=shuffle,
+                # Each external variable keeps its own description of
+                # file contents properties (they would otherwise
+                # become global attributes, that are not read back)
+                variable_attributes=set(
+                    self.cf_description_of_file_contents_attributes()
+                ).difference(("Conventions", "featureType")),
                 extra_write_vars=extra_write_vars,
             )
 
